@@ -12,6 +12,8 @@ package main
 //	                              (de-duplicated) x 3 content patterns.
 //	C14/long-chains               drafts x rs in {1,2,3,5} x every length 0..48 (quick) / 0..256 (thorough)
 //	                              x 3 content patterns: proof chains of up to 256 records.
+//	C14/big-rs-all-lengths        drafts x rs in {16384, 6000} (thorough: + 4097, 10000) x EVERY length 0..rs+33
+//	                              (single-record streams of every size, and the first bytes of a second record).
 //
 // Content patterns: two LCG byte patterns derived from VERIF_SEED (content only, never
 // a verdict) and the all-zero payload (record bytes equal to the 0x00 flag byte).
@@ -355,10 +357,30 @@ func init() {
 			c14Case(c, "C14/long", d, rs, n, pat)
 		},
 	}
+	// every payload length under a LARGE record size: the decoder's working buffer (record + next proof) is then never
+	// filled by a multi-record stream of the other harnesses' few lengths, so a buffer that grows in steps, or a reader
+	// that treats "exactly full" specially, is first wrong at some single-record length that is not a function of rs
+	bigRS := &mc.Harness{
+		Name: "C14/big-rs-all-lengths",
+		Run: func(c *mc.Ctx) {
+			d := miDrafts[c.Free(len(miDrafts), "draft")]
+			list := []int{16384, 6000}
+			if !c.Quick() {
+				list = []int{16384, 6000, 4097, 10000}
+			}
+			rs := list[c.Free(len(list), "rs")]
+			n := c.Free(rs+34, "len")
+			pat := 0
+			if !c.Quick() {
+				pat = c.Free(3, "pattern")
+			}
+			c14Case(c, "C14/bigrs", d, rs, n, pat)
+		},
+	}
 	register(&mc.Property{
 		ID:    "C14",
 		Level: "model_checking",
-		Rule: "choice-tree enumeration of encoder inputs, all points free (no sampling): drafts 02/03 x rs in {1,2,3,4,5,7,8,16} x every payload length 0..3rs+2 x 3 content patterns; and drafts x every rs in 1..16384 (quick: 1..1025, 4095..4097, 8191..8193, 16383, 16384) x length in {0,1,rs-1,rs,rs+1,2rs,2rs+1} x 3 content patterns; and drafts x rs in {1,2,3,5} x every length 0..48 (quick) / 0..256 (thorough) x 3 patterns (long proof chains). " +
+		Rule: "choice-tree enumeration of encoder inputs, all points free (no sampling): drafts 02/03 x rs in {1,2,3,4,5,7,8,16} x every payload length 0..3rs+2 x 3 content patterns; and drafts x every rs in 1..16384 (quick: 1..1025, 4095..4097, 8191..8193, 16383, 16384) x length in {0,1,rs-1,rs,rs+1,2rs,2rs+1} x 3 content patterns; and drafts x rs in {1,2,3,5} x every length 0..48 (quick) / 0..256 (thorough) x 3 patterns (long proof chains); and drafts x rs in {16384, 6000} (thorough: + 4097, 10000) x EVERY length 0..rs+33 x 1 (thorough: 3) content pattern. " +
 			"Each case runs the real Encode, compares stream bytes and digest string with refmice (recursive definition), decodes the implementation's output with the real decoder and with the reference decoder. " +
 			"A case is non-trivial when the stream contains at least one proof (two or more records) or is one of the special shapes (empty payload, payload exactly one record); cases are distinct by construction (draft, rs, length, pattern).",
 		Assumptions: []string{
@@ -367,7 +389,7 @@ func init() {
 			"content bytes are three fixed patterns (two seeded pseudo-random, one all-zero); the encoder is assumed not to branch on content",
 			"the io.Writer given to Encode never fails (writer failures are outside C14)",
 		},
-		Harnesses: []*mc.Harness{small, boundary, long},
+		Harnesses: []*mc.Harness{small, boundary, long, bigRS},
 		Guard: func(s map[string]*mc.Stats) error {
 			a, b := s["C14/small-rs-all-lengths"], s["C14/all-rs-boundary-lengths"]
 			if a == nil || b == nil {
